@@ -650,6 +650,21 @@ func JudgeC04(c *Case, res *Result) []Finding {
 			}
 		}
 	}
+	if len(c.Text) == 0 && len(c.Runs) == 0 {
+		// the empty paragraph: with TruncateAfterLines = 1 its only possible line is the
+		// k-th one, so a text declared to continue gets its truncator (reporting the
+		// empty cut range); otherwise there is nothing to return
+		hasTrunc := false
+		for _, li := range x.lines {
+			if li.trunc != nil {
+				hasTrunc = true
+			}
+		}
+		if want := c.TruncateAfter == 1 && c.TextContinues; want != hasTrunc {
+			add("truncator-presence", "empty paragraph, TruncateAfterLines=%d TextContinues=%v: truncator present=%v (lines returned: %d)", c.TruncateAfter, c.TextContinues, hasTrunc, len(res.Lines))
+		}
+		return out
+	}
 	tadv := c.Truncator().Advance
 	// width laws presuppose that extending a line never shrinks it: they are judged
 	// only for horizontal text whose glyph advances are all non-negative (vertical
